@@ -186,7 +186,41 @@ func (fr *Frame) newRef() Term {
 	a := fr.alloc()
 	r := vc.define("ref", SInt, sx("+", a, "1"))
 	vc.setHeap(fr.st, "$alloc", SInt, r)
+	vc.refLoops[r] = fr.activeLoopKeys()
 	return r
+}
+
+// activeLoopKeys: the loops (of this frame and its callers) whose body is being executed.
+func (fr *Frame) activeLoopKeys() map[string]bool {
+	out := map[string]bool{}
+	for f := fr; f != nil; f = f.parent {
+		for _, li := range f.loopHead {
+			if f.curBlk != nil && li.blocks[f.curBlk] {
+				out[f.loopKey(li)] = true
+			}
+		}
+	}
+	return out
+}
+
+// markDirty records that heap `name` is written at an object that may have existed when the
+// enclosing loops were entered. ref is the object written ("" when unknown): objects
+// allocated inside a loop body do not make that loop dirty.
+func (fr *Frame) markDirty(name string, ref Term) {
+	created := fr.vc.refLoops[ref]
+	for f := fr; f != nil; f = f.parent {
+		for _, li := range f.loopHead {
+			if f.curBlk != nil && li.blocks[f.curBlk] {
+				if created != nil && created[f.loopKey(li)] {
+					continue
+				}
+				if li.dirty == nil {
+					li.dirty = map[string]bool{}
+				}
+				li.dirty[name] = true
+			}
+		}
+	}
 }
 
 func (fr *Frame) execAlloc(i *ssa.Alloc) {
@@ -567,6 +601,9 @@ func (fr *Frame) execLookup(i *ssa.Lookup) {
 
 func (fr *Frame) mapStore(m Term, mh *mapHeaps, k, v Term) {
 	vc := fr.vc
+	fr.markDirty(mh.dom, m)
+	fr.markDirty(mh.val, m)
+	fr.markDirty(mh.ln, m)
 	d := vc.heap(fr.st, mh.dom, mh.domS)
 	vv := vc.heap(fr.st, mh.val, mh.valS)
 	l := vc.heap(fr.st, mh.ln, mh.lnS)
@@ -578,6 +615,8 @@ func (fr *Frame) mapStore(m Term, mh *mapHeaps, k, v Term) {
 
 func (fr *Frame) mapDelete(m Term, mh *mapHeaps, k Term) {
 	vc := fr.vc
+	fr.markDirty(mh.dom, m)
+	fr.markDirty(mh.ln, m)
 	d := vc.heap(fr.st, mh.dom, mh.domS)
 	l := vc.heap(fr.st, mh.ln, mh.lnS)
 	had := and(not(eq(m, "0")), sel(sel(d, m), k))
